@@ -139,6 +139,12 @@ INITIAL = [
     (["10 Z=Q+R*S"], "expression"), (["7 DIM A(5)", "10 A(1)=A+1:PRINT A"], "scalar-and-array-of-one-name"),
     (["10 N$(2)=N$+\"X\":PRINT N$"], "scalar-and-array-of-one-name"), (["7 DIM T$(2),U(2)", "10 Z$=T$+\"A\":Z=U*2"], "scalar-and-array-of-one-name"), (["7 DIM C(3)", "10 Z=C(1)"], "dimmed-array-read"),
     (["7 DIM C$(3)", "10 Z$=C$(1)"], "dimmed-array-read"), (["7 DIM C(1,1)", "10 Z=C(1,1)"], "dimmed-array-read"),
+    # a variable that some statement assigns, read on a path that has not run that statement
+    (["10 IF Q=0 THEN 40", "20 FOR I=1 TO 2:NEXT I", "40 PRINT I"], "assigned-elsewhere:for-variable"),
+    (["10 PRINT I:FOR I=1 TO 2:NEXT"], "assigned-elsewhere:for-variable"), (["10 Z=J+1:FOR J=Z TO 2 STEP 1:NEXT J:PRINT J"], "assigned-elsewhere:for-variable"),
+    (["10 PRINT K:INPUT K"], "assigned-elsewhere:input-target"), (["10 PRINT K$:LINE INPUT K$"], "assigned-elsewhere:input-target"),
+    (["10 PRINT K:READ K", "20 DATA 4"], "assigned-elsewhere:read-target"), (["10 PRINT K;K$:K=1:K$=\"A\""], "assigned-elsewhere:let-target"),
+    (["10 GOTO 30", "20 K=5", "30 PRINT K"], "assigned-elsewhere:let-target"), (["10 IF Q=1 THEN K=5 ELSE PRINT K"], "assigned-elsewhere:let-target"),
     (["10 Z=VARPTR(Q)"], "only-varptr"), (["10 PLAY H$"], "only-device-operand"), (["10 WIDTH Q+32"], "only-device-operand"),
 ]
 
